@@ -1,6 +1,7 @@
 #!/bin/bash
 # Full (.vo) build of the Coq development; never -vos/-vok.  Usage: build.sh [target.vo | models | clean]
 cd "$(dirname "$0")" || exit 2
+mkdir -p ../work; exec 9>../work/.build.flock; flock 9
 { echo "-Q theories RxVerif"; echo "-Q props RxProps"; find theories props -name '*.v' | LC_ALL=C sort; } > _CoqProject.new
 if cmp -s _CoqProject.new _CoqProject; then rm -f _CoqProject.new; else mv _CoqProject.new _CoqProject; fi
 if [ ! -f Makefile ] || [ _CoqProject -nt Makefile ]; then coq_makefile -f _CoqProject -o Makefile >/dev/null || exit 2; fi
